@@ -393,7 +393,128 @@ func (helloEngine) SubRuns(t *testing.T, batch string, baseTape func() *rt.Tape,
 	return out
 }
 
+// scopeRun is batch c10.scope: a scope description handed to schema.UnserializeScope directly. A scope comes back
+// unlinked by design; loading it means UnserializeScope + ApplySelf + ValidateReferences, and that sequence must
+// either report an error or yield a scope every operation on which is total.
+func scopeRun(tape *rt.Tape, runIdx uint64) RunRecord {
+	rec := RunRecord{Faults: map[string]int{}, Probes: map[string]int{}}
+	recipe := GenScope(tape, GenOpts{MaxObjects: 3, MaxProps: 4, MaxDepth: 2, Prefix: "Q"})
+	var orig *schema.ScopeSchema
+	func() {
+		defer func() { _ = recover() }()
+		orig = BuildScope(recipe)
+	}()
+	if orig == nil {
+		return RunRecord{Outcome: "excluded", Reason: "recipe cannot be built"}
+	}
+	d0, err := selfDesc(orig)
+	if err != nil {
+		return RunRecord{Outcome: "excluded", Reason: "recipe not self-describable: " + trunc(err.Error(), 100)}
+	}
+	desc, err := Norm(d0)
+	if err != nil {
+		return RunRecord{Outcome: "excluded", Reason: "description not normalisable"}
+	}
+	var muts []string
+	if tape.Choose("sc.random", 10) == 9 {
+		desc = randomTree(tape, 0)
+		muts = append(muts, "random-tree")
+	} else {
+		var nodes []*node
+		collectNodes(desc, "", &nodes)
+		nm := tape.Choose("hm.count", 3) // 0 = unmutated: the honest description must load and work
+		for i := 0; i < nm && len(nodes) > 0; i++ {
+			d, ok := applyMutation(desc, tape.Choose("hm.node", len(nodes)), mutationKinds[tape.Choose("hm.kind", len(mutationKinds))], tape.Choose("hm.variant", 16))
+			if ok {
+				muts = append(muts, d)
+			}
+		}
+	}
+	var vals []any
+	for k := 0; k < 3; k++ {
+		vg := &ValGen{S: rt.NewTape(0xE5, runIdx*4+uint64(k)), Scope: recipe, Corrupt: k == 2}
+		vals = append(vals, vg.Object(recipe.Root, nil))
+	}
+	vals = append(vals, nil, "", "str", int64(0), int64(-1), 1.5, true, []any{}, []any{nil}, map[string]any{}, map[any]any{int64(1): "x"})
+	var panics []opPanic
+	ops := 0
+	var sc *schema.ScopeSchema
+	var loadErr error
+	guarded("UnserializeScope", &panics, func() { sc, loadErr = schema.UnserializeScope(desc) })
+	if sc != nil && loadErr == nil && len(panics) == 0 {
+		guarded("ApplySelf", &panics, func() { sc.ApplySelf() })
+		if len(panics) == 0 {
+			guarded("ValidateReferences", &panics, func() { loadErr = sc.ValidateReferences() })
+		}
+	}
+	accepted := sc != nil && loadErr == nil && len(panics) == 0
+	if accepted {
+		exerciseType("scope", sc, vals, &panics, &ops)
+		guarded("scope.SelfSerialize", &panics, func() { _, _ = sc.SelfSerialize() })
+		if len(muts) == 0 && len(panics) == 0 {
+			// an honest description: the loaded scope must also agree with the original on the generated inputs
+			for _, v := range vals[:3] {
+				_, e1 := orig.Unserialize(v)
+				_, e2 := sc.Unserialize(v)
+				if (e1 == nil) != (e2 == nil) {
+					rec.Violations = append(rec.Violations, Violation{"C10", "mismatch", "honest-scope-description-loads-differently", fmt.Sprintf("input %s: original says %v, the scope loaded from its own description says %v", short(v), e1, e2)})
+					break
+				}
+			}
+		}
+	} else if len(muts) == 0 && len(panics) == 0 {
+		rec.Violations = append(rec.Violations, Violation{"C10", "mismatch", "honest-scope-description-rejected", fmt.Sprintf("the unmutated self-description was rejected: %v", loadErr)})
+	}
+	rec.SchedSig = fmt.Sprintf("%x/%s", fnvString(fmt.Sprint(desc)), strings.Join(muts, "+"))
+	rec.LogHash = rec.SchedSig
+	rec.Nontrivial = len(muts) > 0
+	if len(muts) > 0 {
+		rec.Faults["scope-mutation"] = len(muts)
+	}
+	rec.Features = []string{"c10.scope"}
+	if accepted {
+		rec.Features = append(rec.Features, "accepted")
+		rec.Probes["mutated_scope_accepted"] = 1
+	} else {
+		rec.Features = append(rec.Features, "rejected")
+		rec.Probes["mutated_scope_rejected"] = 1
+	}
+	rec.Probes["ops_on_accepted_schema"] = ops
+	errText := ""
+	if loadErr != nil {
+		errText = trunc(loadErr.Error(), 200)
+	}
+	rec.Steps = ops
+	rec.Sample = map[string]any{"mutations": muts, "accepted": accepted, "load_error": errText, "operations_exercised": ops}
+	seen := map[string]bool{}
+	for _, p := range panics {
+		fr := ""
+		if len(p.Frames) > 0 {
+			fr = p.Frames[0]
+		}
+		cls := "use"
+		if p.Op == "UnserializeScope" || p.Op == "ApplySelf" || p.Op == "ValidateReferences" {
+			cls = "load(" + p.Op + ")"
+		}
+		sig := "scope " + cls + ": " + stripVolatile(p.Value) + " @ " + fr
+		if seen[sig] {
+			continue
+		}
+		seen[sig] = true
+		rec.Violations = append(rec.Violations, Violation{"C10", "panic", sig, fmt.Sprintf("%s panicked on a scope description given to UnserializeScope (mutations %v): %s frames=%v", p.Op, muts, p.Value, p.Frames)})
+	}
+	if len(rec.Violations) > 0 {
+		rec.Outcome = "violation"
+	} else {
+		rec.Outcome = "ok"
+	}
+	return rec
+}
+
 func (helloEngine) Run(t *testing.T, batch string, tape *rt.Tape, runIdx uint64, extra json.RawMessage, trace func(string)) RunRecord {
+	if batch == "c10.scope" {
+		return scopeRun(tape, runIdx)
+	}
 	rec := RunRecord{Faults: map[string]int{}}
 	var pr *PluginRecipe
 	var muts []string
